@@ -1,1 +1,27 @@
-// harnesses for lexer_mode
+// Flag plumbing of the lexer modes (C13/C14 rely on these round trips). Compiled inside `lexer::lexer_mode`.
+
+#[kani::proof]
+fn flags_roundtrip() {
+    let float: bool = kani::any();
+    let na = match kani::any::<u8>() % 4 {
+        0 => MacroEvalNextArgumentMode::None,
+        1 => MacroEvalNextArgumentMode::SingleEvalExpr,
+        2 => MacroEvalNextArgumentMode::EvalExpr,
+        _ => MacroEvalNextArgumentMode::MacroArg,
+    };
+    let (st, se, pm): (bool, bool, bool) = (kani::any(), kani::any(), kani::any());
+    let f = MacroEvalExprFlags::new(if float { MacroEvalNumericMode::Float } else { MacroEvalNumericMode::Integer }, na, st, se, pm);
+    assert!(f.float_mode() == float && matches!(f.numeric_mode(), MacroEvalNumericMode::Float) == float, "C13: eval flags: numeric mode");
+    assert!(f.terminate_on_stat() == st && f.terminate_on_semi() == se && f.parens_mask_comma() == pm, "C13: eval flags: terminators");
+    assert!(f.terminate_on_comma() == !matches!(na, MacroEvalNextArgumentMode::None), "C13: comma terminates iff another argument may follow");
+    assert!(f.follow_arg_mode() as u8 == na as u8, "C13: eval flags: next argument mode");
+    let ctx = match kani::any::<u8>() % 3 {
+        0 => MacroArgContext::BuiltInMacro,
+        1 => MacroArgContext::MacroCall,
+        _ => MacroArgContext::MacroDef,
+    };
+    let (p, t): (bool, bool) = (kani::any(), kani::any());
+    let g = MacroArgNameValueFlags::new(ctx, p, t);
+    assert!(g.context() as u8 == ctx as u8 && g.populate_next_arg_stack() == p && g.terminate_on_comma() == t, "C13: argument flags round trip");
+    kani::cover!(pm && !st);
+}
